@@ -174,13 +174,12 @@ def units(ctx):
     from .common_none import none_tests
     f = ctx.tree.func("ops.py", "MeasureHomodyne._apply")
     none_tests(ctx, rule, f, ("select",), "a post-selection on the quadrature value")
-    for rel, qn in (("backends/gaussianbackend/backend.py", "GaussianBackend.measure_homodyne"),
-                    ("backends/bosonicbackend/backend.py", "BosonicBackend.measure_homodyne"),
-                    ("backends/gaussianbackend/backend.py", "GaussianBackend.measure_heterodyne"),
-                    ("backends/bosonicbackend/backend.py", "BosonicBackend.measure_heterodyne"),
-                    ("backends/fockbackend/circuit.py", "Circuit.measure_homodyne")):
-        g = ctx.tree.func(rel, qn)
-        none_tests(ctx, rule, g, ("select",), "a post-selection on the value")
+    # every function that takes a `select` / `dark_counts` parameter (backends, circuits, operations)
+    for g in ctx.tree.all_functions():
+        if g.module.rel.startswith("backends/tfbackend") or g is f:
+            continue
+        if "select" in g.params:
+            none_tests(ctx, rule, g, ("select",), "a post-selection on the value")
     ctx.floor(rule, 5)
 
 
